@@ -59,7 +59,15 @@ def targeted(rule_doc: dict, flt: dict) -> bool:
     if rules == [] or (isinstance(rules, str) and rules.lower() == "any"):
         return True
     refs = [rules] if isinstance(rules, str) else rules
-    return any(r == rule_doc.get("id") or r == rule_doc.get("name") for r in refs)
+
+    def same_id(a, b):
+        import uuid
+        try:
+            return a is not None and b is not None and uuid.UUID(a) == uuid.UUID(b)
+        except ValueError:
+            return False
+
+    return any(same_id(r, rule_doc.get("id")) or r == rule_doc.get("name") for r in refs)
 
 
 def filter_formula(flt: dict):
@@ -215,7 +223,7 @@ def cases(draw):
         names = draw(st.lists(st.sampled_from(NAMES), min_size=2, max_size=3, unique=True))
         det = {n: {draw(st.sampled_from(fieldpool)): f"r{i}{k}"} for k, n in enumerate(names)}
         det["condition"] = draw(st.sampled_from(_valid(RULE_CONDS, names)))
-        rules.append({"title": f"rule{i}", "id": UUIDS[i], "name": f"rn{i}", "logsource": draw(st.sampled_from(LOGSOURCES)),
+        rules.append({"title": f"rule{i}", "id": UUIDS[i] if draw(st.integers(0, 5)) else UUIDS[i].upper(), "name": f"rn{i}", "logsource": draw(st.sampled_from(LOGSOURCES)),
                       "detection": det})
     if draw(st.integers(0, 5)) == 0:
         rules.append({"title": "corr", "correlation": {"type": "event_count", "rules": ["rn0"], "timespan": "5m",
@@ -226,7 +234,10 @@ def cases(draw):
         names = draw(st.lists(st.sampled_from(NAMES), min_size=2, max_size=3, unique=True))
         fd = {n: {draw(st.sampled_from(fieldpool)): f"x{j}{k}"} for k, n in enumerate(names)}
         fd["condition"] = draw(st.sampled_from(_valid(FILTER_CONDS, names)))
-        fd["rules"] = draw(st.sampled_from(["any", [], [UUIDS[0]], ["rn0"], ["rn1", UUIDS[2]], "rn0", ["nomatch"], "ANY"]))
+        u0 = UUIDS[0]
+        spellings = [u0, u0.upper(), "{" + u0 + "}", "urn:uuid:" + u0, u0.replace("-", "")]
+        fd["rules"] = draw(st.sampled_from(["any", [], [UUIDS[0]], ["rn0"], ["rn1", UUIDS[2]], "rn0", ["nomatch"], "ANY",
+                                            [draw(st.sampled_from(spellings))], draw(st.sampled_from(spellings)), ["rn2", UUIDS[1].upper()]]))
         filters.append({"title": f"flt{j}", "logsource": draw(st.sampled_from(LOGSOURCES)), "filter": fd})
     return {"rules": rules, "filters": filters, "rseed": draw(st.integers(0, 10 ** 6)),
             "suffix": draw(st.sampled_from(["", "", "_m"]))}
